@@ -35,6 +35,9 @@ ASSUMPTIONS = ['LF line structure (a line break is the single character U+000A)'
                'plain-str text) is outside the domain, as in C08/C16; such nodes/leaves are skipped and counted',
                'str(node) omits blank space between a command/environment opening and its arguments: the text of a '
                'node is compared with the source modulo source whitespace; its opening is compared exactly']
+LEAN_TARGETS = LEAN_TARGETS + ['TexSoupProofs.Properties.TableSpec']
+# entries of the generated tables that the property's statement names (they stop compiling when a table edit drops them)
+THEOREMS = THEOREMS + ['TexSoup.TableSpec.' + n for n in ['end_of_line_chars']]
 
 
 # ------------------------------------------------------------------------------------ inputs
@@ -52,8 +55,18 @@ def _docs(ctx, tag, n):
     return out
 
 
+# characters that str.splitlines() / str.isspace() treat as line boundaries or blanks but that do NOT end a line of
+# a document with LF line structure (they are ordinary text characters to the tokenizer)
+NOT_LINE_BREAKS = '\x0b\x0c\x1c\x1d\x1e\x85\u2028\u2029'
+
+
 def _line_strings(n):
-    return [''.join(t) for k in range(n + 1) for t in itertools.product('a\n', repeat=k)]
+    out = [''.join(t) for k in range(n + 1) for t in itertools.product('a\n', repeat=k)]
+    # LF structure with one of the look-alike characters anywhere in the text
+    m = min(n, 6)
+    for c in NOT_LINE_BREAKS:
+        out += [''.join(t) for k in range(1, m + 1) for t in itertools.product('a\n' + c, repeat=k) if c in t]
+    return out
 
 
 # ------------------------------------------------------------------------------------ correspondence
